@@ -23,8 +23,10 @@ from pv.codec import build, Env, token, vtoken, s_scalar, s_dt, S_INTS, S_FLOATS
 
 ASSUMPTIONS = [
     'cells are None, ints, finite floats, strings, datetimes (no NaN: NaN key identity is C02 territory; no bools; no +-inf)',
-    'column names come from k,j,u,w,m,n: never a dictable constructor parameter or the default group column (data, columns, key, grp, index, axis) '
-    'and never equal to a string cell, so a pivot label cannot overwrite an x column',
+    'column names: single letters k,j,u,w,m,n in half of the cases, otherwise families of nested names (trade_id/trade/id/de, date/da/te/at, kkk/kk/k, '
+    'uw/u/w/uwm, n_m/n/m/nm) so that names are substrings, prefixes and suffixes of each other; never a dictable constructor parameter, the default group '
+    'column (data, columns, key, grp, index, axis), an attribute of dictable/Dict, a name starting with an underscore, or a string cell (so a pivot label '
+    'cannot overwrite an x column)',
     'keys are a non-empty proper subset of the columns, spelled as *names or as one list of names (listby() with no keys and listby([]) are other contracts)',
     'key cells of the regrouped table are compared with == (the group representative of the keys 1 and 1.0 may be either); all other cells by type and value',
     '"sorted by the keys" is judged with pyg_base.cmp on the key tuples (the library-defined mixed-type order, itself the subject of C07) and, '
@@ -35,13 +37,41 @@ ASSUMPTIONS = [
     'no None, no digit strings next to ints, and never ints next to floats because 1 and 1.0 are one key but two labels); '
     'a label is accepted when it equals the y value or str(y value)',
     'pivot: z cells are not None (so that "None cell" means "no row"); with agg=sum the z cells are numbers',
-    'pivot: aggregators are None (list of values), pyg_base.last, builtin sum, builtin len; row and column ORDER of the pivot table is not asserted (the statement does not promise it)',
+    'pivot: aggregators are None (list of values), pyg_base.last, builtin sum, builtin len, builtin tuple; row and column ORDER of the pivot table is not asserted (the statement does not promise it)',
     'groupby sub-tables are expected to list the rows of their key in original row order ("likewise")',
 ]
 
 KNOWN = {}      # no known findings: nothing is excluded from the search
 
 _COLS = ['k', 'j', 'u', 'w', 'm', 'n']
+# families of column names in which some names are substrings / prefixes / suffixes of others (a name test written as
+# `name in other_name` instead of `name in [names]` goes wrong exactly here). None of them is a dictable/Dict attribute,
+# a constructor parameter, the default group column, or a string cell / pivot label of the universe.
+_FAMILIES = [['trade_id', 'trade', 'id', 'de'], ['date', 'da', 'te', 'at'], ['kkk', 'kk', 'k'], ['uw', 'u', 'w', 'uwm'], ['n_m', 'n', 'm', 'nm']]
+_ALL_NAMES = sorted(set(_COLS + [c for f in _FAMILIES for c in f]))
+
+
+def _col_names(draw, ncols):
+    """half of the cases: single letters; the other half: a family of nested names first, filled up with other names"""
+    if draw(st.booleans()):
+        return list(draw(st.permutations(_COLS))[:ncols])
+    fam = list(draw(st.permutations(draw(st.sampled_from(_FAMILIES)))))
+    rest = [c for c in draw(st.permutations(_ALL_NAMES)) if c not in fam]
+    return (fam + rest)[:ncols]
+
+
+def _name_classes(keys, others):
+    """class labels about substring relations between key column names and the other column names"""
+    cls = []
+    if any(o != k and o in k for o in others for k in keys):
+        cls.append('colname_substring_of_key')
+        if len(keys) == 1:
+            cls.append('colname_substring_of_single_key')
+    if any(o != k and k in o for o in others for k in keys):
+        cls.append('key_substring_of_colname')
+    if any(len(c) > 1 for c in list(keys) + list(others)):
+        cls.append('multichar_names')
+    return cls
 
 
 # ----------------------------------------------------------------------------- model helpers (plain python)
@@ -201,9 +231,10 @@ def _regroup_case(draw, tier, with_grp=False):
     big = tier == 'thorough'
     top = 14 if big else 9
     ncols = draw(st.integers(2, 5 if big else 4))
-    cols = list(draw(st.permutations(_COLS))[:ncols])
-    nby = draw(st.integers(1, ncols - 1))
+    cols = _col_names(draw, ncols)
+    nby = draw(st.sampled_from([1, 1] + list(range(1, ncols))))
     by = list(draw(st.permutations(cols))[:nby])
+    cols = list(draw(st.permutations(cols)))
     columns = _rows(draw, [_cells(draw, c in by) for c in cols], 0, top)
     spec = dict(cols=cols, data=dict(zip(cols, columns)), by=by, form=draw(st.sampled_from(['names', 'list'])))
     if with_grp:
@@ -273,7 +304,7 @@ def run_listby(spec):
 
     dup = any(len(g[1]) >= 2 for g in groups)
     kcls, mixed = _key_classes(spec, by)
-    cls = ['form=' + spec['form'], 'nkeys=%i' % len(by)] + kcls
+    cls = ['form=' + spec['form'], 'nkeys=%i' % len(by)] + kcls + _name_classes(by, others)
     if dup:
         cls.append('dup_key')
     if len(groups) == n:
@@ -341,7 +372,7 @@ def run_groupby(spec):
 
     dup = any(len(g[1]) >= 2 for g in groups)
     kcls, mixed = _key_classes(spec, by)
-    cls = ['form=' + spec['form'], 'nkeys=%i' % len(by), 'grp=' + gname] + kcls
+    cls = ['form=' + spec['form'], 'nkeys=%i' % len(by), 'grp=' + gname] + kcls + _name_classes(by, others)
     if dup:
         cls.append('dup_key')
     if len(groups) == n:
@@ -380,9 +411,10 @@ def _pivot_case(draw, tier):
     top = 14 if big else 9
     nx = draw(st.integers(1, 2))
     extra = draw(st.integers(0, 1))
-    cols = list(draw(st.permutations(_COLS))[:nx + 2 + extra])
+    cols = _col_names(draw, nx + 2 + extra)
+    cols = list(draw(st.permutations(cols)))
     x, y, z = cols[:nx], cols[nx], cols[nx + 1]
-    agg = draw(st.sampled_from(['none', 'last', 'sum', 'len']))
+    agg = draw(st.sampled_from(['none', 'last', 'sum', 'len', 'tuple']))
     ykind = draw(st.sampled_from(['str', 'int', 'dt', 'float', 'mixed', 'mixed']))
     ypool = draw(st.lists(_Y_KINDS[ykind], min_size=draw(st.sampled_from([1, 2, 2])), max_size=4))
     strategies = [_cells(draw, True) for c in x] + [st.sampled_from(ypool), _Z_NUM if agg == 'sum' else st.one_of(_Z_ANY, _Z_NUM)] \
@@ -414,7 +446,8 @@ def run_pivot(spec):
     from pyg_base import dictable, last
     d, cols, data, n = _build_table(spec)
     x, y, z = list(spec['x']), spec['y'], spec['z']
-    aggs = {'none': (None, lambda zs: list(zs)), 'last': (last, lambda zs: zs[-1]), 'sum': (sum, _fold_sum), 'len': (len, lambda zs: len(zs))}
+    aggs = {'none': (None, lambda zs: list(zs)), 'last': (last, lambda zs: zs[-1]), 'sum': (sum, _fold_sum), 'len': (len, lambda zs: len(zs)),
+            'tuple': (tuple, lambda zs: tuple(zs))}
     agg, model_agg = aggs[spec['agg']]
     xarg = x[0] if spec['xform'] == 'str' else list(x)
     desc = short({c: data[c] for c in cols}, 400)
@@ -482,7 +515,8 @@ def run_pivot(spec):
 
     dup_xy = any(len(zs) >= 2 for zs in cells.values())
     none_cell = len(cells) < len(xgroups) * len(ygroups)
-    cls = ['agg=' + spec['agg'], 'y=' + spec['ykind'], 'nx=%i' % len(x), 'xform=' + spec['xform'], spec['method']]
+    cls = ['agg=' + spec['agg'], 'y=' + spec['ykind'], 'nx=%i' % len(x), 'xform=' + spec['xform'], spec['method']] \
+        + _name_classes(x, [c for c in cols if c not in x])
     if dup_xy:
         cls.append('dup_xy')
     else:
@@ -509,22 +543,25 @@ def _label_of(lab, yv):
 SUBS = [
     Sub('listby_unlist', lambda tier: _regroup_case(tier), run_listby, quick=4000, thorough=25000,
         rule='tables of 0-9 rows x 2-4 columns (thorough: 0-14 x 2-5), cells None/ints/floats/strings/datetimes with heavy duplication in key columns '
-             '(small value pools, homogeneous and mixed-type, int/float twins); keys = a non-empty proper subset in any order, as *names or one list. '
+             '(small value pools, homogeneous and mixed-type, int/float twins); keys = a non-empty proper subset in any order, as *names or one list; column names nested in each other in half of the cases. '
              'oracle: nested-loop grouping of the spec; listby has exactly one row per distinct key, other cells list the key\'s values in row order; '
              'unlist = contiguous key blocks, each the key\'s rows in original order, blocks increasing under cmp (and natively where comparable). '
              'non-trivial = some key with >= 2 rows and >= 2 distinct keys',
-        floor=0.2, class_floors={'mixed_type_key': 0.15, 'int_and_float_key': 0.03, 'order_visible': 0.2, 'reordered': 0.2, 'nkeys=2': 0.1, 'all_keys_unique': 0.05, 'empty': 0.005}),
+        floor=0.2, class_floors={'mixed_type_key': 0.15, 'int_and_float_key': 0.03, 'order_visible': 0.2, 'reordered': 0.2, 'nkeys=2': 0.1, 'all_keys_unique': 0.05, 'empty': 0.005,
+                                 'colname_substring_of_key': 0.08, 'colname_substring_of_single_key': 0.04, 'key_substring_of_colname': 0.08}),
     Sub('groupby_ungroup', lambda tier: _regroup_case(tier, with_grp=True), run_groupby, quick=4000, thorough=25000,
         rule='same tables and keys as listby_unlist, default and custom grp column name. oracle: one row per distinct key, each sub-table holds exactly '
              'the other columns of the key\'s rows in row order, sizes add up to len(d), ungroup() has the original columns and the original multiset '
              'of rows (key cells by ==, other cells by type and value). non-trivial = some key with >= 2 rows and >= 2 distinct keys',
-        floor=0.2, class_floors={'mixed_type_key': 0.15, 'single_and_multi_row_groups': 0.15, 'grp=g': 0.1, 'all_keys_unique': 0.05, 'empty': 0.005}),
+        floor=0.2, class_floors={'mixed_type_key': 0.15, 'single_and_multi_row_groups': 0.15, 'grp=g': 0.1, 'all_keys_unique': 0.05, 'empty': 0.005,
+                                 'colname_substring_of_key': 0.08, 'colname_substring_of_single_key': 0.04, 'key_substring_of_colname': 0.08}),
     Sub('pivot_unpivot', lambda tier: _pivot_case(tier), run_pivot, quick=4000, thorough=25000,
         rule='non-empty tables of 1-9 rows (thorough 1-14), x = 1-2 mixed-type key columns, y = strings | ints | floats | datetimes | a mix of strings, ints and datetimes, '
-             'z non-None, optional bystander column, agg in None/last/sum/len, a quarter of the cases with unique (x, y) pairs by construction. '
+             'z non-None, optional bystander column, agg in None/last/sum/len/tuple, nested column names in half of the cases, a quarter of the cases with unique (x, y) pairs by construction. '
              'oracle: nested-loop model {(x key, y value): z values in row order}; pivot rows <-> distinct x keys and label columns <-> distinct y values '
              'are bijections, every cell = agg(values) or None; unpivot minus None cells = one row per (x, y) with the aggregated z (multiset). '
              'non-trivial = >= 2 x keys and >= 2 y values and (an aggregated duplicate or a None cell)',
-        floor=0.2, class_floors={'dup_xy': 0.2, 'unique_xy': 0.2, 'none_cell': 0.3, 'mixed_type_key': 0.15, 'nx=2': 0.2, 'agg=none': 0.1, 'agg=last': 0.1, 'agg=sum': 0.1, 'agg=len': 0.1,
+        floor=0.2, class_floors={'dup_xy': 0.2, 'unique_xy': 0.2, 'none_cell': 0.3, 'mixed_type_key': 0.15, 'nx=2': 0.2, 'agg=none': 0.1, 'agg=last': 0.1, 'agg=sum': 0.1, 'agg=len': 0.1, 'agg=tuple': 0.1,
+                                 'colname_substring_of_key': 0.08, 'key_substring_of_colname': 0.08,
                                  'y=str': 0.05, 'y=int': 0.05, 'y=float': 0.05, 'y=dt': 0.05, 'y=mixed': 0.1}),
 ]
